@@ -535,6 +535,43 @@ func Scenarios() []Scenario {
 			return decodeBody(st, tid, true)
 		},
 		Check: allOK})
+	// S11: three encoders of the same compression codec, each with its own destination, two blocks each
+	for _, comp := range []string{"deflate", "snappy"} {
+		comp := comp
+		out = append(out, Scenario{Name: "S11-" + comp + " three independent encoders (" + comp + "), two blocks each", Threads: 3,
+			Setup: func(env *Env) *State { return &State{Env: env} },
+			Body: func(st *State, tid int) Obs {
+				var buf bytes.Buffer
+				e, err := avro.NewEncoderFor[HolderC](&buf, avro.Compression(comp), 0)
+				if err != nil {
+					return Obs{Err: err.Error()}
+				}
+				for i := 0; i < 2; i++ {
+					h := HolderC{C: Cust(1000*(tid+1) + i)}
+					if err := e.Encode(&h); err != nil {
+						return Obs{Err: err.Error()}
+					}
+				}
+				if err := e.Flush(); err != nil {
+					return Obs{Err: err.Error()}
+				}
+				p, err := ref.ParseFile(buf.Bytes())
+				if err != nil {
+					return Obs{S: "DIFF output is not a container file: " + err.Error()}
+				}
+				if len(p.Blocks) != 2 {
+					return Obs{S: fmt.Sprintf("DIFF %d blocks, 2 were written", len(p.Blocks))}
+				}
+				for i, b := range p.Blocks {
+					v, n, cl := ref.ReadLong(b.Payload)
+					if b.Count != 1 || cl != ref.VOK || n != len(b.Payload) || v != int64(1000*(tid+1)+i) {
+						return Obs{S: fmt.Sprintf("DIFF block %d: count %d payload %x, written %d", i, b.Count, b.Payload, 1000*(tid+1)+i)}
+					}
+				}
+				return Obs{S: "ok"}
+			},
+			Check: allOK})
+	}
 	// S7: mixed
 	out = append(out, Scenario{Name: "S7 mixed: Register || shared decode with new zone || build+decode", Threads: 3,
 		Setup: func(env *Env) *State {
